@@ -26,6 +26,7 @@ Round 6: the temporary name carries process id and thread id read at write time 
 its own); publication after close, by os.replace and not by a copying primitive.
 Round 7: includes the closedness rules E of C15 (the blocks rely only on names every driver binds
 itself: a field table bound in the module by the builder is shared by same-named classes).
+Round 8: includes the hash-coverage rules H of C15.
 """
 import ast
 
